@@ -19,7 +19,7 @@ class Hit:
 
 class EngineSpec:
     """How a property uses one correspondence engine."""
-    def __init__(self, name, gen, monitor=None, tags=None, corpus=None, quick_n=200, thorough_n=5000, timeout=900):
+    def __init__(self, name, gen, monitor=None, tags=None, corpus=None, quick_n=200, thorough_n=5000, timeout=900, canon=None):
         self.name = name
         self.gen = gen              # gen(rng, n, tier) -> [History]
         self.monitor = monitor      # monitor(hist, obs) -> [Hit]
@@ -28,6 +28,7 @@ class EngineSpec:
         self.quick_n = quick_n
         self.thorough_n = thorough_n
         self.timeout = timeout
+        self.canon = canon          # canon(lines) -> lines: engine-specific canonicalisation of implementation output
 
 
 class PropSpec:
@@ -129,6 +130,8 @@ def run_property(spec, tier, seed, extract=None):
         hs = corpus + gen
         ti = time.time()
         impl = core.run_side(core.impl_cmd(es.name), hs, timeout=es.timeout)
+        if es.canon:
+            impl = [es.canon(x) for x in impl]
         tm = time.time()
         model = core.run_side(core.model_cmd(es.name), hs, timeout=es.timeout) if mrc == 0 else [None] * len(hs)
         log(f"[{pid}] engine {es.name}: {len(hs)} histories impl {tm-ti:.1f}s model {time.time()-tm:.1f}s")
@@ -156,6 +159,8 @@ def run_property(spec, tier, seed, extract=None):
                     else:
                         hits.append(hit)
             if mo is not None:
+                if len(io) < len(h.ops):
+                    mo = mo[:len(io)]      # the implementation process died inside this history: compare up to there
                 d = core.first_diff(core.compared(io), mo)
                 if d is not None:
                     disagreements.append((es, h, d, io, mo))
@@ -166,12 +171,20 @@ def run_property(spec, tier, seed, extract=None):
         def still(ops, es=es):
             hh = [History(ops)]
             a = core.run_side(core.impl_cmd(es.name), hh, timeout=120)[0]
+            if es.canon:
+                a = es.canon(a)
             b = core.run_side(core.model_cmd(es.name), hh, timeout=120)[0]
+            if len(a) < len(ops):
+                b = b[:len(a)]
             return core.first_diff(core.compared(a), b) is not None
         small = core.shrink(es.name, h, still, budget=60 if tier == "quick" else 200)
         hh = [History(small)]
         a = core.run_side(core.impl_cmd(es.name), hh, timeout=120)[0]
+        if es.canon:
+            a = es.canon(a)
         b = core.run_side(core.model_cmd(es.name), hh, timeout=120)[0]
+        if len(a) < len(small):
+            b = b[:len(a)]
         dd = core.first_diff(core.compared(a), b) or d
         key = (es.name, small[dd[0]].split(" ")[0] if dd[0] < len(small) else "?")
         if key in seen_dis:
